@@ -163,3 +163,41 @@ Example C05_cg_exit_test_nonvacuous :
   exit_test (1#10) [1#20; 1#5]%Q [0; 4]%Q = true /\
   columns_bound (1#10) [1#20; 1#5]%Q [0; 4]%Q /\ exit_test (1#10) (zeros 3) (zeros 3) = true.
 Proof. vm_compute. repeat split; discriminate. Qed.
+
+(* ------------------------------------------------------------------ the ABSOLUTE tolerance of np.allclose (K06)
+   atoms_of_tol tol : the atoms with  np.allclose(x, 0)  read as  |x| <= tol  entry by entry (atol8 = 1e-8; all atoms
+   whose reference is zero: the off-diagonal-part atoms of every container and the sparse symmetric / Hermitian atoms).
+   The property ("for ANY non-singular square matrix") is false of the decision procedure as written: *)
+Theorem C05_auto_tolerance_refuted :
+  offdiag_zero k06_witness = false /\ m_symmetric k06_witness = false /\
+  matrix_is_diagonal (atoms_of_tol atol8 SDense false k06_witness) = true /\
+  matrix_is_diagonal (atoms_of_tol atol8 SSparse false k06_witness) = true /\
+  matrix_is_symmetric (atoms_of_tol atol8 SSparse false k06_witness) = true /\
+  auto_on_tol atol8 SDense false k06_witness false false false None None None None = KDiagonal /\
+  auto_on_tol atol8 SSparse false k06_witness false false false None None None None = KDiagonal /\
+  admissible KDiagonal (mclass_of SDense false k06_witness false) = false /\
+  admissible KDiagonal (mclass_of SSparse false k06_witness false) = false.
+Proof. exact tolerance_misclassifies. Qed.
+Print Assumptions C05_auto_tolerance_refuted.
+
+(* sound direction: as soon as ONE off-diagonal entry exceeds the tolerance the matrix is not called diagonal *)
+Theorem C05_diagonal_tolerance_sound :
+  forall (tol : Q) (s : storage) (cplx : bool) (A : cmat) (i j : nat),
+  st_isdia s = false -> (i < length A)%nat -> (j < ncols A)%nat -> i <> j ->
+  c_within tol (mget A i j) = false ->
+  matrix_is_diagonal (atoms_of_tol tol s cplx A) = false.
+Proof. exact diagonal_tol_sound. Qed.
+Print Assumptions C05_diagonal_tolerance_sound.
+
+(* an exactly diagonal matrix is recognised at every tolerance; and on (Gaussian) integer entries any tolerance in
+   [0, 1) IS the exact test -- the reading the exact correspondence uses on integer-valued matrices *)
+Theorem C05_diagonal_tolerance_complete :
+  forall (tol : Q) (A : cmat), (0 <= tol)%Q -> offdiag_zero A = true -> offdiag_within tol A = true.
+Proof. exact offdiag_zero_within. Qed.
+Print Assumptions C05_diagonal_tolerance_complete.
+
+Theorem C05_integer_entries_exact_reading :
+  forall (tol : Q) (A : cmat), (0 <= tol)%Q -> (tol < 1)%Q -> m_integer A = true ->
+  offdiag_within tol A = offdiag_zero A.
+Proof. exact integer_matrix_exact_reading. Qed.
+Print Assumptions C05_integer_entries_exact_reading.
